@@ -343,6 +343,9 @@ func evalCase(c *om.Case, vs []variant) (ms []mismatch, info evalInfo) {
 			kind, what := om.CompareCall(f, info.wz.Calls[k], res[k])
 			if kind != "" {
 				key := fmt.Sprintf("op=%s/%s", f.Op, c.Calls[k].Class)
+				if cl := c.Calls[k].Class; cl == "oob" || cl == "beyond-initial-size" {
+					key = "op=memory/oob" // one root cause: no bounds check on any memory access
+				}
 				ms = append(ms, mismatch{k, v.Name, key, fmt.Sprintf("%s: wazero vs C(%s): %s: %s", om.Describe(c, k), v.Name, kind, what)})
 				if f.Stateful || kind == "memory" {
 					break
@@ -403,7 +406,27 @@ func TestOpMatrixC(t *testing.T) {
 		oc := om.Generate(t, cfg)
 		c.Set(payload{Kind: "opmatrix", Case: oc.Strip()})
 		ms, info := evalCase(oc, vs)
+		if strings.HasPrefix(info.rejected, "panic:") {
+			// wat2c must translate or return an error; find the function it chokes on
+			for i := range oc.Funcs {
+				if oc.Funcs[i].Text == "" {
+					continue
+				}
+				one := om.Minimal(oc, cfg, firstCallOf(oc, i))
+				if _, _, _, p := translate(one.Wat); p != "" {
+					key := fmt.Sprintf("wat2c-panic:op=%s/%s", oc.Funcs[i].Op, oc.Funcs[i].Shape)
+					c.Set(payload{Kind: "opmatrix", Case: one.Strip()})
+					if os.Getenv("C03_SURVEY") == "" {
+						c.Fail(key, "wat2c panics instead of translating or returning an error: %s\n%s", head(p, 300), oc.Funcs[i].Text)
+					}
+					break
+				}
+			}
+		}
 		if info.rejected != "" {
+			if dir := os.Getenv("C03_SURVEY"); dir != "" {
+				os.WriteFile(filepath.Join(dir, "rejected_"+sanitize(head(info.rejected, 60))+".txt"), []byte(info.rejected+"\n"+oc.Wat), 0o644)
+			}
 			s.Counter("rejected_by_domain/translator", 1)
 			s.Note("translator rejected: " + head(info.rejected, 200))
 			return
@@ -417,7 +440,11 @@ func TestOpMatrixC(t *testing.T) {
 			// development aid: record every distinct key with a minimal case instead of stopping at the first
 			for _, m := range ms {
 				fn := filepath.Join(dir, sanitize(m.key)+".json")
-				if _, err := os.Stat(fn); err == nil || m.call < 0 {
+				if _, err := os.Stat(fn); err == nil {
+					continue
+				}
+				if m.call < 0 {
+					os.WriteFile(fn, []byte(m.what), 0o644)
 					continue
 				}
 				mc := om.Minimal(oc, cfg, m.call)
@@ -471,6 +498,22 @@ func TestOpMatrixC(t *testing.T) {
 	})
 }
 
+// firstCallOf returns the index of a call of function fi (appending one with
+// zero arguments when the script has none).
+func firstCallOf(c *om.Case, fi int) int {
+	for k, call := range c.Calls {
+		if call.F == fi {
+			return k
+		}
+	}
+	args := make([]string, len(c.Funcs[fi].Params))
+	for i := range args {
+		args[i] = "0"
+	}
+	c.Calls = append(c.Calls, om.Call{F: fi, Args: args, Class: "-"})
+	return len(c.Calls) - 1
+}
+
 var sanRe = regexp.MustCompile(`[^A-Za-z0-9_.=+-]+`)
 
 func sanitize(k string) string { return sanRe.ReplaceAllString(k, "_") }
@@ -502,7 +545,10 @@ func replay(test string, raw json.RawMessage) (string, string) {
 		return "harness/bad-replay", "no case"
 	}
 	v := variantByName(p.Variant)
-	ms, _ := evalCase(p.Case, []variant{v})
+	ms, info := evalCase(p.Case, []variant{v})
+	if strings.HasPrefix(info.rejected, "panic:") && len(p.Case.Funcs) > 0 {
+		return fmt.Sprintf("wat2c-panic:op=%s/%s", p.Case.Funcs[0].Op, p.Case.Funcs[0].Shape), "wat2c panics instead of translating or returning an error: " + head(info.rejected, 300)
+	}
 	if len(ms) > 0 {
 		return ms[0].key, ms[0].what
 	}
